@@ -222,6 +222,7 @@ FAMILIES = [
     ("(a+)+$", "a", "b"), ("(a*)*b", "a", "c"), ("(a|a)*b", "a", "c"), ("(a|aa)+$", "a", "b"), ("(.*)*x", "a", "b"),
     ("(a+)\\1+$", "a", "b"), ("(?=(a+)+b)a", "a", "c"), ("(?<=(a+)+b)c", "a", "c"), ("((a+)+)+$", "a", "b"),
     ("(?:a?){20}a{20}", "a", ""), ("^(a+)+$", "a", "!"), ("(?!(a+)+b)a", "a", "c"),
+    ("^(?:(?=a)a|a)*$", "a", "!"), ("^(?:a(?<=a)|a(?<=a))*b", "a", ""), ("^(a*)(?:\\1a|a)*$", "a", "!"),
 ]
 APIS = ["var re = new RegExp(P); re.test(S)", "var re = new RegExp(P); re.exec(S)", "S.match(new RegExp(P))",
         "S.replace(new RegExp(P, 'g'), 'x')", "S.split(new RegExp(P))", "S.search(new RegExp(P))", "S.match(P)", "S.search(P)"]
@@ -254,6 +255,22 @@ def _js(s):
     return '"' + s.replace("\\", "\\\\").replace('"', '\\"') + '"'
 
 
+CLASS_ITEMS = ["a", "z", "1", "-", "^", "\\d", "\\w", "\\s", "\\D", "\\b", "\\]", "\\-", ".", "\\x41", "\\u0041", "\\0"]
+
+
+def _classes():
+    out = []
+    for neg in ("", "^"):
+        pats = []
+        for n in (1, 2, 3):
+            for combo in itertools.product(CLASS_ITEMS, repeat=n):
+                pats.append("[" + neg + "".join(combo) + "]")
+        for i in range(0, len(pats), 400):
+            out.append(("character classes %s#%d: all bodies of <= 3 items over %d item kinds" % (neg or "+", i // 400, len(CLASS_ITEMS)),
+                        {"patterns": pats[i:i + 400], "literal": True}))
+    return out
+
+
 def _sp(name, runner, fn, rule, bound, batch=4, watchdog=60):
     return Space(name, "mc.props.c10:" + runner, fn, oracle="inline", rule=rule, bound=bound, batch=batch,
                  watchdog=watchdog, nontrivial=lambda cid, p, exp: True)
@@ -268,6 +285,8 @@ def spaces(tier, seed, all_strata=False):
             "length 3", batch=1),
         _sp("c10_len4", "run_bundle", lambda: _bundles(4, 2, False), "every pattern string of length 4 (bundled by 2-symbol prefix), "
             "constructor site", "length 4", batch=2),
+        _sp("c10_classes", "run_bundle", _classes, "every character class (plain and negated) whose body is up to 3 items drawn from "
+            "literals, '-', '^', shorthand escapes \\d \\w \\s \\D, \\b, escaped ] and -, hex/unicode/NUL escapes", "<= 3 items", batch=1),
         _sp("c10_flags", "run_bundle", _flags, "every flag string over gimsuyx up to length 3 on 7 patterns", "flags <= 3", batch=1),
         _sp("c10_mutations", "run_bundle", _mutations, "all single-character deletions and insertions (22 symbols) of 200 valid patterns",
             "1 edit", batch=4),
